@@ -22,6 +22,10 @@ Clauses(r, d, o) ==
      \cup F(o[18] = 1 => (o[10] = okI /\ (ok => o[11] = r.end)), "C02", "stdlib_stream_differs_from_spec")
      \cup F(ok => (o[12] = 1 /\ o[13] = r.end), "C11", "skipvaluefast_nil")
      \cup F(ok => (o[14] = 1 /\ o[15] = r.end), "C11", "skipvaluefast_used_buffer")
+     \cup F(o[19] = v, "C01", "valid_buffer_grown_by_a_handler_traversal")
+     \cup F(o[20] = okI /\ (ok => o[21] = r.end), "C02", "skipvalue_buffer_grown_by_a_handler_traversal")
+     \cup F(ok => (o[22] = 1 /\ o[23] = r.end), "C11", "skipvaluefast_buffer_grown_by_a_handler_traversal")
+     \cup F(o[24] = 0, "C10", "panic")
      \cup F(o[16] = 1, "C16", "input_modified")
      \cup F(o[17] = 0, "C10", "panic")
      \cup F((o[6] = 1 => (o[7] >= 0 /\ o[7] <= n)) /\ (o[8] = 1 => (o[9] >= 0 /\ o[9] <= n))
